@@ -163,7 +163,7 @@ func run(prop, tier string, seed int64, outDir, replay string) (*core.Result, er
 	res := core.NewResult(prop, tier, seed)
 	nProg, nResp := 36, 8
 	if tier == "thorough" {
-		nProg, nResp = 160, 30
+		nProg, nResp = 400, 30
 	}
 	rng := core.NewRng(seed)
 	var cases []*conv.Case
